@@ -854,3 +854,7 @@ func addAccessorFacts(st *pathState, cond ssa.Value, val bool, depth int) {
 		addAccessorFacts(st, rv, v, depth+1)
 	}
 }
+
+func isErrorType(t types.Type) bool {
+	return types.Identical(t, types.Universe.Lookup("error").Type())
+}
